@@ -115,3 +115,62 @@ func areaSizes(th bool, seed uint64) [][2]int {
 	}
 	return [][2]int{all[0], all[1+int(seed%uint64(len(all)-1))]}
 }
+
+// runLimitEnumerate visits the images of a "runlimit" batch: H rows of W = Aux+2 samples;
+// the first H-1 rows are flat (runs that reach the line end and raise RUNindex), the last
+// row is a flat run of Aux samples, one outlier, and one more background sample.  The outlier
+// magnitude sweeps the whole sample range in steps of max(1, 2^(P-9)) (at least four points
+// inside every window of Golomb prefix lengths at the initial run-interruption context), for
+// both polarities (background 0 / outlier v, background MAXVAL / outlier MAXVAL-v), so the
+// run-interruption code is driven through every prefix length up to and beyond the escape
+// limit LIMIT - J[RUNindex] - 1 at the RUNindex the run history leaves behind.  All
+// components carry the same values.  f returns false to stop.  Returns the images visited.
+func (c *imgCase) runLimitEnumerate(f func(s []int) bool) int {
+	max := (1 << uint(c.P)) - 1
+	step := 1
+	if c.P > 9 {
+		step = 1 << uint(c.P-9)
+	}
+	n := 0
+	s := make([]int, c.W*c.H*c.C)
+	for _, bg := range []int{0, max} {
+		for v := 1; v <= max; v += step {
+			for i := range s {
+				s[i] = bg
+			}
+			out := v
+			if bg != 0 {
+				out = max - v
+			}
+			pos := (c.H-1)*c.W + c.Aux
+			for k := 0; k < c.C; k++ {
+				s[pos*c.C+k] = out
+			}
+			n++
+			if !f(s) {
+				return n
+			}
+		}
+	}
+	return n
+}
+
+// runLimitBatches: run lengths 1..maxL before the outlier, 1..3 rows.
+func runLimitBatches(ps []int, comps []int, nears []int, maxL int, rows []int) []*imgCase {
+	var out []*imgCase
+	for _, p := range ps {
+		for _, nc := range comps {
+			for _, near := range nears {
+				if near > maxNear(p) {
+					continue
+				}
+				for _, h := range rows {
+					for l := 1; l <= maxL; l++ {
+						out = append(out, &imgCase{Gen: "runlimit", W: l + 2, H: h, C: nc, P: p, Sel: near, Aux: l})
+					}
+				}
+			}
+		}
+	}
+	return out
+}
